@@ -8,6 +8,7 @@ pub mod c07;
 pub mod c09;
 pub mod c10;
 pub mod c13;
+pub mod c14;
 pub mod c17;
 pub mod c18;
 
@@ -21,6 +22,7 @@ pub fn dispatch(env: &Env) -> i32 {
         "C09" => c09::run(env),
         "C10" => c10::run(env),
         "C13" => c13::run(env),
+        "C14" => c14::run(env),
         "C17" => c17::run(env),
         "C18" => c18::run(env),
         other => {
